@@ -24,6 +24,10 @@ pub mod zz_must_fail {
             !crate::parser::locale_err(subtags_of(crate::locale_ser(l))) ==> crate::parser::locale_expected(subtags_of(crate::locale_ser(l)), l2),
         ensures l2.id.view().variants.len() == 0,
     { crate::lemma_locale_roundtrip(l, l2); }
+    pub proof fn zz_must_fail_case_invariant(a: Seq<u8>, b: Seq<u8>, l: crate::Locale)
+        requires a.len() == b.len(),
+        ensures crate::parser::locale_err(subtags_of(a)) == crate::parser::locale_err(subtags_of(b)),
+    { if same_fold_bytes(a, b) { crate::lemma_locale_case_sep_invariant(a, b, l); } }
     pub fn zz_must_fail_locale(v: &[u8]) {
         let r = crate::Locale::from_bytes(v);
         assert(r is Ok);
